@@ -24,7 +24,7 @@ pub fn def() -> CheckDef {
         },
         gen,
         run,
-        rule: "one case = one valid base image (drawn history through the library, or a drawn layout by the independent writer; the first case of a run is a V3 file with > 109 FAT sectors so that DIFAT-sector deviations apply) and (b) the ENUMERATION of every documented tolerated deviation at every applicable place (zero-padded FAT tail; zero-padded DIFAT tail; each FAT / DIFAT sector not marked; DIFAT chain ended by FREESECT; every parent/child pair red-red; every name unterminated; wrong root name; CLSID / creation / modification time on every stream; start sector / size on every storage; FAT / DIFAT / MiniFAT sector counts off by one; non-zero directory-sector count in V3; MiniFAT longer than the mini stream), singly and in drawn combinations of 2-3: permissive open must accept with the SAME logical dump as the undamaged base and strict open must reject - through open_with on the simulated disk for every image, and through the path-based constructors OpenOptions::[strict().]open(path) / open_rw(path) on a real scratch file for the first image of every recipe and every 8th combination; (a) for the whole corpus - base, deviated images, a sample of C05's damaged images, and (cases 1..300 in quick) 40 small foreign layouts each from the independent writer - whenever open_strict accepts, open accepts too and both dumps are identical. sub_runs = images judged. Non-trivial: >= 1 deviation applied; distinct = distinct image hashes. Every pair of recipes (one representative place per recipe and variant) is judged too; near-miss root names (other letter case, one unit short or long) and header counts that are too small or zero are among the variants.",
+        rule: "one case = one valid base image (drawn history through the library, or a drawn layout by the independent writer; the first case of a run is a V3 file with > 109 FAT sectors so that DIFAT-sector deviations apply) and (b) the ENUMERATION of every documented tolerated deviation at every applicable place (zero-padded FAT tail; zero-padded DIFAT tail; each FAT / DIFAT sector not marked; DIFAT chain ended by FREESECT; every parent/child pair red-red; every name unterminated; wrong root name; CLSID / creation / modification time on every stream; start sector / size on every storage; FAT / DIFAT / MiniFAT sector counts off by one; non-zero directory-sector count in V3; MiniFAT longer than the mini stream), singly and in drawn combinations of 2-3: permissive open must accept with the SAME logical dump as the undamaged base and strict open must reject - through open_with on the simulated disk for every image, and through the path-based constructors OpenOptions::[strict().]open(path) / open_rw(path) on a real scratch file for the first image of every recipe and every 8th combination; (a) for the whole corpus - base, deviated images, a sample of C05's damaged images, and (cases 1..300 in quick) 40 small foreign layouts each from the independent writer - whenever open_strict accepts, open accepts too and both dumps are identical. sub_runs = images judged. Non-trivial: >= 1 deviation applied; distinct = distinct image hashes. About half of the small bases get a spare, empty DIFAT sector appended first (legal spare capacity as another writer might reserve it; the zero-padded-DIFAT deviation then applies to a file with fewer than 109 FAT sectors). Every pair of recipes (one representative place per recipe and variant) is judged too; near-miss root names (other letter case, one unit short or long) and header counts that are too small or zero are among the variants.",
         assumptions: &["the base image must itself pass open_strict; otherwise the case is skipped and counted (that is C02/C03/C04's subject)"],
         cpu_limit_s: 1200,
         fault_kinds: "F-FC deviation recipes (enumerated at every place, and combined), plus a sample of C05 damage for clause (a)",
@@ -64,6 +64,9 @@ pub fn gen(seed: u64, idx: u64, tier: Tier) -> Case {
             Op::WriteWhole { path: "/mid".into(), len: 5000, nonce: 3 },
         ];
     } else if idx % 3 == 2 {
+        if idx % 2 == 0 {
+            c.params.insert("spare_difat".into(), 1);
+        }
         c.mode = "foreign-base".into();
         let mut plan = crate::imgwr::plan_from_seed(rng.next_u64(), version);
         plan.v3_size_high_garbage = false;
@@ -79,6 +82,9 @@ pub fn gen(seed: u64, idx: u64, tier: Tier) -> Case {
         }
         c.init = Init::Foreign { content_seed: rng.next_u64(), max_entries: 14, max_stream: 9000, plan };
     } else {
+        if idx % 2 == 1 {
+            c.params.insert("spare_difat".into(), 1);
+        }
         c.ops = images::gen_build_ops(&mut rng, version);
     }
     c
@@ -204,7 +210,16 @@ fn run_inner(case: &Case, _known: &BTreeSet<String>) -> Outcome {
         return o;
     }
     let base = match c05::base_of(case) {
-        Ok(b) => b,
+        Ok(mut b) => {
+            if case.param("spare_difat", 0) == 1 {
+                // spare capacity as another writer might reserve it: an empty DIFAT sector
+                if let Some(img) = crate::corrupt::add_spare_difat_sector(&b.image) {
+                    b.image = img;
+                    o.stats.probe("base_with_spare_difat_sector");
+                }
+            }
+            b
+        }
         Err(e) => {
             if e.starts_with("BUILD-PANIC") {
                 o.stats.probe("base_unusable(other property)");
